@@ -188,7 +188,7 @@ Proof.
       split; [reflexivity|]. split.
       - eapply abs_set; [exact Ha|reflexivity|auto].
       - apply wfl_set_other; [exact Hwf|discriminate]. }
-    destruct r as [rem|e w|rem fin|].
+    destruct r as [rem|e w|e w|rem fin|].
     + specialize (Hplain _ eq_refl). cbv zeta in Hplain.
       destruct (rd_read_full dec n (RPlain rem)) as [[b err] r'] eqn:E. apply Hplain. discriminate.
     + (* first Read of a lazy decoder: a new object *)
@@ -201,6 +201,8 @@ Proof.
            unfold heap_upd. destruct (Nat.eqb z0 (s_next s)) eqn:Ez; [|reflexivity].
            apply Nat.eqb_eq in Ez. destruct Hwf as [_ Hlt]. apply Hlt in Hj. lia.
       * apply wfl_set_fresh. exact Hwf.
+    + specialize (Hplain _ eq_refl). cbv zeta in Hplain.
+      destruct (rd_read_full dec n (RLazyCut e w)) as [[b err] r'] eqn:E. apply Hplain. discriminate.
     + specialize (Hplain _ eq_refl). cbv zeta in Hplain.
       destruct (rd_read_full dec n (RRun rem fin)) as [[b err] r'] eqn:E. apply Hplain. discriminate.
     + specialize (Hplain _ eq_refl). cbv zeta in Hplain.
@@ -457,7 +459,7 @@ Proof. vm_compute. repeat split. discriminate. Qed.
 
 Definition is_decoder_field (x : bytes * bytes * bytes * bytes) : bool :=
   let f := snd (fst x) in
-  bytes_eqb f (bs "zr") || bytes_eqb f (bs "dr") || bytes_eqb f (bs "br").
+  bytes_eqb f (bs "zr") || bytes_eqb f (bs "dr") || bytes_eqb f (bs "br") || bytes_eqb f (bs "src").
 
 (* internal/compress has no package-level variable, and the decoder field of each of the five lazy
    readers is assigned in exactly one place: in Read, the result of the codec's constructor applied to
@@ -468,7 +470,8 @@ Lemma readers_allocate :
   [ (bs "BrotliReader", bs "Read", bs "br", bs "brotli.NewReader(br.Body)");
     (bs "DeflateReader", bs "Read", bs "dr", bs "flate.NewReader(df.Body)");
     (bs "GzipReader", bs "Read", bs "zr", bs "gzip.NewReader(gz.Body)");
-    (bs "ZstdReader", bs "Read", bs "zr", bs "zstd.NewReader(zr.Body)");
+    (bs "ZstdReader", bs "Read", bs "src", bs "&bodyErrReader{r: zr.Body}");
+    (bs "ZstdReader", bs "Read", bs "zr", bs "zstd.NewReader(zr.src)");
     (bs "gzipReader", bs "Read", bs "zr", bs "gzip.NewReader(gz.body)") ].
 Proof. split; reflexivity. Qed.
 
@@ -541,3 +544,12 @@ Proof.
   intros Hb Hproj. cbv zeta. rewrite (session_independence dec _ _ _ _ Hb), Hproj.
   apply crd_run_sticky.
 Qed.
+
+(* every reader internal/compress hands out is wrapped by withMessageEnd: `probes_past_end` *)
+Lemma readers_wait_for_the_message_end :
+  reader_constructors =
+  [ (bs "NewBrotliReader", bs "withMessageEnd(&BrotliReader{Body: body})");
+    (bs "NewDeflateReader", bs "withMessageEnd(&DeflateReader{Body: body})");
+    (bs "NewGzipReader", bs "withMessageEnd(&GzipReader{Body: body})");
+    (bs "NewZstdReader", bs "withMessageEnd(&ZstdReader{Body: body})") ].
+Proof. reflexivity. Qed.
